@@ -132,10 +132,8 @@ def step2 (code : Array Shape) (C : Cert) (pc : Nat) (a : Abs2) (ins : Shape) : 
       if id == idF && decide (0 ≤ i) && decide (i.toNat < a.sl.length) && C.stabOf (id, i) == .any then
         next a.ks (a.sl.set i.toNat .any)
       else none
-    | .object n => next (.any :: a.ks.drop (2 * n.toNat)) a.sl
-    | .index _ | .indexarray _ => next (.any :: a.ks.tail) a.sl
-    | .callNative _ argc => next (.any :: a.ks.drop (argc.toNat + 1)) a.sl
-    | .pathend => next (.any :: a.ks.drop 2) a.sl
+    -- nothing is claimed of the data stack after an instruction that calls out of the loop
+    | .object _ | .index _ | .indexarray _ | .callNative _ _ | .pathend => next [] a.sl
     | .jump t => some [(t, a)]
     | .jumpifnot t => some [((pc : Int) + 1, { a with ks := a.ks.tail }), (t, { a with ks := a.ks.tail })]
     | .fork t | .forkalt t | .forktrybegin t =>
@@ -191,7 +189,8 @@ def certOK (code : Array Shape) (C : Cert) : Bool :=
    | some (id0, _, _) => (C.availOf id0).all (· == id0) && (C.assumeOf id0).isEmpty
    | none => false) &&
   et.all (fun (id, _) =>
-    (C.assumeOf id).all fun xi => xi.1 != id && C.stabOf xi != .any && (C.availOf id).contains xi.1)
+    (C.assumeOf id).all fun xi => xi.1 != id && C.stabOf xi != .any && (C.availOf id).contains xi.1 &&
+      slotOK (scopeTab code) xi.1 xi.2)
 
 def verify2 (code : Array Shape) (C : Cert) : Bool :=
   C.ann.size == code.size && certOK code C && (List.range code.size).all (verifyAt2 code C)
